@@ -6,6 +6,7 @@ numeric value equality of the returned expression; commuting diagram with Quanti
 """
 from __future__ import annotations
 
+import itertools
 from typing import Any, Iterator
 
 import sympy as sp
@@ -400,6 +401,56 @@ def judge(e: Any, wrappers: bool) -> tuple[str, str]:
     return label, ""
 
 
+def wrapper_identity_cases() -> list[tuple[str, str]]:
+    """wrapped operands take their dimension from their own argument: two arguments that merely
+    display alike (different symbols, functions or expressions of them) give wrappers with their own
+    dimensions, in whatever order they are created; the same argument wrapped twice is one operand"""
+    from symplyphysics import Symbol, Function
+    from symplyphysics.core.dimensions import collect_expression_and_dimension
+    from symplyphysics.core.operations.symbolic import (Average, FiniteDifference,
+        ExactDifferential, InexactDifferential)
+    out = []
+    menu = [("mass", U.mass, dims.M), ("length", U.length, dims.L), ("time", U.time, dims.T),
+        ("one", U.Dimension(1), dims.ONE)]
+    for cls in (Average, FiniteDifference, ExactDifferential, InexactDifferential):
+        for (n1, d1, v1), (n2, d2, v2) in itertools.permutations(menu, 2):
+            for shape in ("symbol", "square", "applied"):
+                key = f"wrapper-identity:{cls.__name__}:{shape}:{n1}:{n2}"
+                if shape == "applied":
+                    t = Symbol("t", U.time)
+                    a, b = Function("m", [t], d1)(t), Function("m", [t], d2)(t)
+                else:
+                    a, b = Symbol("m", d1), Symbol("m", d2)
+                if shape == "square":
+                    a, b, w1, w2 = a**2, b**2, v1**2, v2**2
+                else:
+                    w1, w2 = v1, v2
+                wa = cls(a)
+                first = lib_dim(wa.dimension)
+                wb = cls(b)
+                msgs = []
+                if not dims.same(first, w1):
+                    msgs.append(f"first wrapper has dimension {first}, argument {w1}")
+                if not dims.same(lib_dim(wa.dimension), w1):
+                    msgs.append(f"after wrapping another argument displayed alike the first wrapper "
+                        f"has dimension {lib_dim(wa.dimension)}, its argument {w1}")
+                if not dims.same(lib_dim(wb.dimension), w2):
+                    msgs.append(f"second wrapper has dimension {lib_dim(wb.dimension)}, argument {w2}")
+                if wa == wb:
+                    msgs.append("wrappers of two different arguments are equal")
+                if cls(a) != wa:
+                    msgs.append("the same argument wrapped twice gives different operands")
+                try:
+                    got = lib_dim(collect_expression_and_dimension(wa * wb)[1])
+                    if not dims.same(got, w1 * w2):
+                        msgs.append(f"product of the two wrappers inferred as {got}, reference "
+                            f"{w1 * w2}")
+                except Exception as ex:  # pylint: disable=broad-except
+                    msgs.append(f"inference on the product raised {type(ex).__name__}")
+                out.append((key, "; ".join(msgs)))
+    return out
+
+
 def _work(chunk: list[Any]) -> dict:
     _setup()
     res: dict[str, Any] = {"n": 0, "keys": [], "outcomes": {}, "violations": [], "undecided": [],
@@ -439,6 +490,10 @@ def main(run: Run) -> int:
         run.evaluations += n
         r["n"] = 0
         run.absorb([r])
+    for key, viol in wrapper_identity_cases():
+        run.case(key, outcome="wrapper-identity")
+        if viol:
+            run.violation(key, viol, {"wrapper_identity": key})
     return run.finish(
         rule="all trees with <= n internal nodes over dimensioned symbols, applied functions, "
         "derivatives, quantities, numbers; distinct = distinct canonical received trees with at "
@@ -451,6 +506,9 @@ def main(run: Run) -> int:
 
 def replay(case: dict) -> list[str]:
     _setup()
+    if "wrapper_identity" in case:
+        return [f"{k}: {v}" for k, v in wrapper_identity_cases() if v and k ==
+            case["wrapper_identity"]]
     e = build(explore.tup(case["tree"]))
     _, viol = judge(e, wrappers=True)
     return [f"{show(e)}: {viol}"] if viol else []
